@@ -8,8 +8,8 @@ LEVEL = "proof"
 DESIGN_REF = "DESIGN.md §9 C08, §12.C08"
 COQ_TARGETS = ["Properties/C08", "Pins/C08"]
 THEOREMS = [("PdfV.Properties.C08", n) for n in
-            ["C08_roundtrip_tokens", "C08_roundtrip", "C08_roundtrip_bytes", "C08_lex_reads_back", "C08_ser_defined", "C08_cur_point_sync", "C08_table", "C08_table_d0_d1_refuted",
-             "C08_table_yields", "C08_table_Tr_refuted", "C08_no_leak", "C08_no_leak_buffer", "C08_keywords_cover_iso", "C08_reader_matches_source",
+            ["C08_roundtrip_tokens", "C08_roundtrip", "C08_roundtrip_bytes", "C08_lex_reads_back", "C08_ser_defined", "C08_cur_point_sync", "C08_writer_current_point", "C08_table", "C08_table_d0_d1_refuted",
+             "C08_table_yields", "C08_table_Tr", "C08_no_leak", "C08_no_leak_buffer", "C08_keywords_cover_iso", "C08_reader_matches_source",
              "C08_writer_reader_agree", "C08_inline_abbreviations"]]
 ANCHORS = ["content.rs", "primitive.rs:serialize_name", "primitive.rs:PdfString", "types.rs:RenderingIntent", "object/mod.rs:ParseOptions"]
 MODES = ["ops_serialize", "ops_parse", "ops_parse_bytes", "ops_roundtrip"]
@@ -159,7 +159,7 @@ def gen_op(rng, c, wild=False):
         elif kind == "w":
             f.append(rng.choice(["NonZero", "EvenOdd"]))
         elif kind == "e":
-            f.append(rng.randrange(6 if c == "TextRenderMode" else 3))
+            f.append(rng.randrange(8 if c == "TextRenderMode" else 3))
         elif kind == "L":
             f.append(tuple(gen_f(rng) for _ in range(rng.choice([0, 1, 2, 4]))))
         elif kind == "T":
@@ -336,7 +336,7 @@ def gen_args(rng, kw):
             args.append([gen_string(rng) if rng.random() < 0.5 else (gen_f(rng) if rng.random() < 0.5 else rng.randint(-99, 99))
                          for _ in range(rng.choice([0, 1, 2, 4]))])
         elif k == "I":
-            args.append(rng.randrange({"Tr": 6}.get(kw, 3)))
+            args.append(rng.randrange({"Tr": 8}.get(kw, 3)))
         elif k == "O":
             args.append(gen_props(rng))
     return args
@@ -579,19 +579,15 @@ def always(case, r):
 def classify(case, impl, model):
     if "d0d1" in case.tags:
         return "C08-d"
-    if "tr67" in case.tags:
-        return "C08-f"
     if "wild" in case.tags:
         return "C08-g"
     info = INFO.get(case.key())
     if info is None or impl[0] != "OK":
         return None
-    # C08-e: the library's current point ignores h / re / path-painting operators
+    # C08-e: the reader's current point ignores h / re / path-painting operators
     try:
-        if case.mode == "ops_serialize":
-            if T.ops_equal(T.spec_parse(impl[1][0] if impl[1] else b"", stale=True), info["ops"]):
-                return "C08-e"
-        elif case.mode in ("ops_parse", "ops_parse_bytes") and "toks" in info:
+        # (the writer's half is fixed, C08-i: a `v` written against a stale point is a violation)
+        if case.mode in ("ops_parse", "ops_parse_bytes") and "toks" in info:
             data = case.fields[0]
             if T.ops_equal(T.spec_parse(data, stale=True), T.dec_ops(impl[1])):
                 return "C08-e"
